@@ -124,7 +124,7 @@ func c20LinkOne(c *core.Ctx, base string, k c20LinkCase) {
 	// nobody else holds a lock while a statement of T runs (the other process runs to its end between two statements):
 	// T never has to wait, so a short limit does not turn machine load into errors; it only keeps a csvq that waits
 	// for its own lock from taking two minutes
-	env.Tx.UpdateWaitTimeout(0.5, 5*time.Millisecond)
+	env.Tx.UpdateWaitTimeout(3, 5*time.Millisecond)
 	var cache []int
 	loaded, forUpdate := false, false
 	var trace []string
